@@ -48,7 +48,7 @@ def sweep(rng, n):
 oracle_search = propgen.budgeted([sweep])
 
 
-oracle_at = propgen.definitional_oracle_at(['adjust_intervals', 'merge_intervals', 'interpolate_intervals', 'boundaries'], 're-expresses the annotation as specified by label_at')
+oracle_at = propgen.chained(propgen.point_oracle(ID), propgen.definitional_oracle_at(['adjust_intervals', 'merge_intervals', 'interpolate_intervals', 'boundaries'], 're-expresses the annotation as specified by label_at'))
 
 
 def diagnose(b):
